@@ -35,16 +35,6 @@ def Val.equiv (a b : Val) : Prop := ∀ p : Path, (a.get p).kind = (b.get p).kin
 
 /-! ## the documented names of environment variables -/
 
-def digitChar (d : Nat) : Char :=
-  match d with
-  | 0 => '0' | 1 => '1' | 2 => '2' | 3 => '3' | 4 => '4'
-  | 5 => '5' | 6 => '6' | 7 => '7' | 8 => '8' | _ => '9'
-
-/-- decimal digits -/
-def natDigits (n : Nat) : List Char :=
-  if _h : n < 10 then [digitChar n] else natDigits (n / 10) ++ [digitChar (n % 10)]
-decreasing_by omega
-
 /-- a property name inside a variable name: upper case, `_` doubled -/
 def escapeKey : List Char → List Char
   | [] => []
